@@ -5,6 +5,7 @@
 #include <algorithm>
 #include <cctype>
 #include <iterator>
+#include <limits>
 #include <vector>
 
 #include "../Exceptions.h"
@@ -219,7 +220,30 @@ int toInt(const std::string& s, char scientificNotation)
 {
   if (!isDecimalInteger(s, scientificNotation))
     throw Exception("TextTools::toInt(). Invalid number specification: " + s);
-  return fromString<int>(s);
+  std::size_t e = s.find(scientificNotation);
+  if (e == std::string::npos)
+    return fromString<int>(s);
+  // Scientific notation: the stream extraction of an int stops at the exponent.
+  std::size_t p = e + 1;
+  if (s[p] == '+')
+    p++;
+  long long value = fromString<long long>(s.substr(0, e));
+  std::size_t firstNonZero = s.find_first_not_of('0', p);
+  if (value != 0 && firstNonZero != std::string::npos)
+  {
+    if (s.size() - firstNonZero > 2)
+      throw Exception("TextTools::toInt(). Number out of range: " + s);
+    int exponent = fromString<int>(s.substr(firstNonZero));
+    for (int i = 0; i < exponent; ++i)
+    {
+      value *= 10;
+      if (value > std::numeric_limits<int>::max() || value < std::numeric_limits<int>::min())
+        throw Exception("TextTools::toInt(). Number out of range: " + s);
+    }
+  }
+  if (value > std::numeric_limits<int>::max() || value < std::numeric_limits<int>::min())
+    throw Exception("TextTools::toInt(). Number out of range: " + s);
+  return static_cast<int>(value);
 }
 
 /******************************************************************************/
